@@ -339,7 +339,13 @@ def c13(paths):
                 idx_n = hn.steps.index(b_)
                 if a.ok != b_.ok:
                     cls = "other"
-                    if a.kind == "eng" and a.verb() == "open":
+                    # the recorded defect: the vault cannot cover the payout, so the insurance fund is drawn on (the cw20
+                    # run records the shortfall as bad debt); on native collateral `withdraw` counts the fees the caller
+                    # attached as vault balance, draws too little, and the fee transfers that follow fail
+                    if (a.kind == "eng" and a.ok and not b_.ok and int(b_.toks[2]) > 0 and a.verb() in ("close", "open")
+                            and I(a.obs, "e.baddebt") > I(a.pre, "e.baddebt")):
+                        cls = "native_fund_draw_short_by_fees"
+                    elif a.kind == "eng" and a.verb() == "open":
                         pre = pos(a.pre, int(a.toks[4]), a.sender())
                         if pre is not None and pre["size"] != 0 and (pre["dir"] == "A") != (a.toks[5] == "B"):
                             # the recorded defect: the reversal re-opens and either needs fresh margin beyond the
